@@ -369,10 +369,8 @@ def run_chain_case(run, rng, kind, big=False, force=None):
     if mps is None:
         run.count("chain:rejected:Mps.random")
         return None
-    if tm.extra.get("complex_hopping"):
-        # a real-dtype start state is rejected by an assertion of the Matrix container when the first complex tensor is
-        # stored (explicit precondition: the state's dtype must be able to hold the result)
-        mps = mps.to_complex()
+    if tm.extra.get("complex_hopping") and rng.random() < 0.5:
+        mps = mps.to_complex()          # the other half starts from a real guess: the optimiser has to promote it
     if rng.random() < 0.5:
         mps.ensure_left_canonical()
     else:
